@@ -61,22 +61,36 @@ deriving Repr, Inhabited
 def Schema.wrapOk (S : Schema) (t : TypeId) : Bool :=
   !(S.nodeType t).isLeaf && !(S.nodeType t).attrs.any (fun a => !a.hasDefault)
 
-/-- `compute_wrapping`: queue of active items, a seen-set of wrapper types; `rootDfa`/`q` is the match
-    position asked about -/
+/-- the automaton an active item is positioned in -/
+def Active.dfa (S : Schema) (rootDfa : Dfa) (a : Active) : Dfa :=
+  if a.root then rootDfa else S.dfa a.dfaOf
+
+/-- the `for i in range(len(match.next))` loop of `compute_wrapping` for one popped item: every edge
+    (in the order of `match.next`) whose type is a possible wrapper, not yet seen, and — unless the
+    item is the root — whose target state is a valid end, appends a new active item and marks the
+    type as seen.  Returns the appended items (in order) and the updated seen-set. -/
+def wrapExpand (S : Schema) (d : Dfa) (cur : Active) :
+    (edges : List (TypeId × Nat)) → (seen : List TypeId) → List Active × List TypeId
+  | [], seen => ([], seen)
+  | e :: es, seen =>
+    if S.wrapOk e.1 && !seen.contains e.1 && (cur.root || d.validEnd e.2) then
+      let r := wrapExpand S d cur es (e.1 :: seen)
+      ({ dfaOf := e.1, state := 0, chain := cur.chain ++ [e.1], root := false } :: r.1, r.2)
+    else wrapExpand S d cur es seen
+
+/-- `compute_wrapping`: queue of active items (`active.pop(0)` / `active.append`), a seen-set of
+    wrapper types; `rootDfa`/`q` is the match position asked about.  `fuel` bounds the number of
+    popped items; `Props/C15.lean: findWrapping_complete` shows that the amount `findWrapping`
+    passes is never exhausted on a well-formed schema (every type is queued at most once). -/
 def wrapSearch (S : Schema) (rootDfa : Dfa) (target : TypeId) :
     (fuel : Nat) → (queue : List Active) → (seen : List TypeId) → Option (List TypeId)
   | 0, _, _ => none
   | _ + 1, [], _ => none
   | fuel + 1, cur :: queue, seen =>
-    let d := if cur.root then rootDfa else S.dfa cur.dfaOf
+    let d := cur.dfa S rootDfa
     if (d.matchType cur.state target).isSome then some cur.chain
     else
-      let step := (d.edgesOf cur.state).foldl (fun (acc : List Active × List TypeId) e =>
-        let (q', seen') := acc
-        let t := e.1
-        if S.wrapOk t && !seen'.contains t && (cur.root || d.validEnd e.2) then
-          (q' ++ [{ dfaOf := t, state := 0, chain := cur.chain ++ [t], root := false }], t :: seen')
-        else acc) (([] : List Active), seen)
+      let step := wrapExpand S d cur (d.edgesOf cur.state) seen
       wrapSearch S rootDfa target fuel (queue ++ step.1) step.2
 
 /-- `ContentMatch.find_wrapping(target)` at state `q` of automaton `d` -/
